@@ -44,7 +44,8 @@ TRMeta    == Is("RMeta") /\ Ev.r \in DOMAIN rd /\ StatsOk(rd[Ev.r].path, Ev)
 TInfo     == Is("Info") /\ StatsOk(Ev.path, Ev)
 TDump     == Is("Dump") /\ DumpOk(Ev.path, Ev.kp, Ev.vp, Ev.mink, Ev.minv, Ev.ents)
 TFileStruct == Is("FileStruct") /\ FileStruct(Ev.path, Ev.S)
-TFileHash == Is("FileHash") /\ FileHash(Ev.path, Ev.h)
+TFileHash == Is("FileHash") /\ FileHash(Ev.path, Ev.h, Ev.exists)
+TAbsent   == Is("Absent") /\ ~Ev.exists /\ MkAbsent(Ev.path)
 
 TUInit    == Is("UInit") /\ UInit(Ev.u)
 TUAdd     == Is("UAdd") /\ UAdd(Ev.u, Ev.k, Ev.v)
@@ -94,7 +95,7 @@ TLeak     == Is("LeakCheck") /\ ("C18" \in judge => (Quiescent /\ Ev.leaks = 0))
 TPoolInit == Is("PoolInit") /\ PoolInit(Ev.p, Ev.n)
 TPoolDestroy == Is("PoolDestroy") /\ PoolDestroy(Ev.p)
 
-TApi == \/ TJudge \/ TIgnore \/ TInfo \/ TDump \/ TFileStruct \/ TFileHash \/ TMkOther \/ TMkTable \/ TRm
+TApi == \/ TJudge \/ TIgnore \/ TInfo \/ TDump \/ TFileStruct \/ TFileHash \/ TAbsent \/ TMkOther \/ TMkTable \/ TRm
         \/ TWInit \/ TWAdd \/ TWClose \/ TROpen \/ TRDestroy \/ TRMeta
         \/ TUInit \/ TUAdd \/ TUDestroy \/ TMInit \/ TMAdd \/ TMDestroy
         \/ TOpen \/ TSeek \/ TNext \/ TClose \/ TSrcWrite \/ TMergeTool \/ TBigBlock
